@@ -320,12 +320,12 @@ def compare(case, out):
         m = ms.get(sh["name"])
         if m is None or m["geometry"]["corners"] is None:
             continue
-        _stats["rect_shades_compared_with_model"] += 1
+        _stats["shades_compared_with_model"] += 1
         cs = m["geometry"]["corners"]
         d = set_dist([tuple(c) for c in sh["corners"]], [tuple(c) for c in cs])
         scale = max(1.0, max(abs(c) for p in cs for c in p) / 30)
         if d > TOL * scale:
-            res.append((CORRESPONDENCES[0], f"rectangular shade {sh['name']}: a corner of the converted shade is {d:.3f} m from the model's: model {[tuple(round(c, 2) for c in p) for p in sh['corners']]}, "
+            res.append((CORRESPONDENCES[0], f"shade {sh['name']}: a corner of the converted shade is {d:.3f} m from the model's: model {[tuple(round(c, 2) for c in p) for p in sh['corners']]}, "
                         f"implementation {[tuple(round(c, 2) for c in p) for p in cs]}"))
     return res[:4]
 
